@@ -573,6 +573,8 @@ def run_property(prop, tier, seed, only=None):
     weak, mostly_raised = [], []
     for name, c in agg.per_test.items():
         tot = sum(v for k, v in c.items() if k != "nontrivial")
+        if name.startswith("empty:"):
+            continue  # zero-size inputs: NumPy itself rejects many of them (max of nothing, mean of nothing): expected, not a generator problem
         if tot >= 10 and (c.get("ok", 0) + c.get("fail", 0) + c.get("raised", 0)) < 0.3 * tot:
             weak.append(name)  # most cases rejected / inconclusive: the generator needs work
         elif tot >= 10 and (c.get("ok", 0) + c.get("fail", 0)) < 0.3 * tot:
